@@ -127,6 +127,14 @@ def PredictorTime.timeDerivative (D : Diff α) (mean : List α → α) (X : List
     List α :=
   (Predictor.gradient D .time mean (mergeTime X ts)).map fun g => g.getD (g.length - 1) 0
 
+/-- `time_derivative` of a predictor with `k` value columns: `super().gradient(Xnew)[..., -1]` — the gradient has shape
+    `(n, k, d + 1)` and the result `(n, k)`: for every row the time partial of EVERY column (repair `7168ef1`; the slice used
+    to be `[:, -1]`, all partial derivatives of the last column). -/
+def PredictorTime.timeDerivativeCols (D : Diff α) (means : List (List α → α)) (X : List (List α)) (ts : List α) :
+    List (List α) :=
+  (Deriv.gradientCols D (means.map (callOf .time)) (mergeTime X ts)).map fun row =>
+    row.map fun g => g.getD (g.length - 1) 0
+
 /-- `gradient(self.mean, X, time)`: autodiff w.r.t. the state row only, the row's time is a fixed
     extra argument. -/
 def PredictorTime.gradient (D : Diff α) (mean : List α → α) (X : List (List α)) (ts : List α) :
